@@ -4,13 +4,13 @@ using namespace vf;
 
 static std::string oracle(const Case& c) {
     Evidence& ev = W().ev; std::vector<ops::Op> seq = ops::from_hex(c.get("ops"));
-    ops::Machine m; m.fl.allow_inject = c.u("inject", 1) != 0; m.fl.strict_rand19 = false;
+    ops::Machine m; m.fl.allow_inject = c.u("inject", 1) != 0; m.fl.strict_rand19 = false; m.fl.check_statics = true;
     m.start(m.fl.allow_inject);
     model::Golden::get();
     std::string r = m.run(seq); if (!r.empty()) return r + "   sequence: " + ops::describe(seq);
     bool nt = m.saw_crypt_then_use || m.max_live >= 2 || m.saw_reinject || m.saw_failed_ctor;
     ev.eval(); ev.count("ops-executed", seq.size()); for (auto& p : m.cls) ev.count(p.first, p.second);
-    if (m.saw_crypt_then_use) ev.count("seq:crypt-then-encode/store"); if (m.max_live >= 2) ev.count("seq:>=2-live-seeds"); if (m.saw_reinject) ev.count("seq:re-injection"); if (m.saw_failed_ctor) ev.count("seq:failed-constructor"); if (m.saw_alloc_fail) ev.count("seq:allocation-failure-observed");
+    if (m.saw_crypt_then_use) ev.count("seq:crypt-then-encode/store"); if (m.max_live >= 2) ev.count("seq:>=2-live-seeds"); if (m.saw_reinject) ev.count("seq:re-injection"); if (m.saw_failed_ctor) ev.count("seq:failed-constructor"); if (m.saw_alloc_fail) ev.count("seq:allocation-failure-observed"); if (vf::static_guard().bytes()) ev.count("library-static-storage-watched(bytes)", 0), ev.classes["library-static-storage-watched(bytes)"] = vf::static_guard().bytes();
     if (nt) { ev.nt(c); { Case sc = c; sc.set("described", ops::describe(seq).substr(0, 600)); ev.sample(c.get("gen", "seq"), sc); } } else ev.count("trivial");
     return "";
 }
